@@ -1,7 +1,7 @@
 //! Edges / Bins / Grid / Histogram.
 use crate::common::*;
 use crate::guarded;
-use ndarray::{Array1, Ix2};
+use ndarray::{s, Array1, Ix2};
 use ndarray_stats::histogram::{Bins, Edges, Grid, Histogram};
 use ndarray_stats::HistogramExt;
 
@@ -52,8 +52,17 @@ fn run_t<T: Elem + Ord>(routine: &str, t: &mut Toks) -> String {
             let positions = t.vec_usize();
             // both constructors must agree
             let e2 = Edges::from(Array1::from(data.clone()));
-            let edges = Edges::from(data);
-            let same = edges == e2;
+            let edges = Edges::from(data.clone());
+            // ... also when the owned array is a narrowed piece of a larger allocation (slice_move):
+            // a prefix, every other element, the reversed array
+            let k = data.len() / 2;
+            let pre = Array1::from(data.clone()).slice_move(s![..k]);
+            let stp = Array1::from(data.clone()).slice_move(s![..;2]);
+            let rev = Array1::from(data.clone()).slice_move(s![..;-1]);
+            let same = edges == e2
+                && Edges::from(pre) == Edges::from(data[..k].to_vec())
+                && Edges::from(stp) == Edges::from(data.iter().step_by(2).cloned().collect::<Vec<T>>())
+                && Edges::from(rev) == edges;
             let ev: Vec<T> = edges.iter().cloned().collect();
             let via_view: Vec<T> = edges.as_array_view().iter().cloned().collect();
             let via_index: Vec<T> = (0..edges.len()).map(|i| edges[i].clone()).collect();
